@@ -48,14 +48,16 @@ type rs struct {
 	flat *flow.Inliner // R6 only: the line/terminator writers are inlined into their callers as well
 	cur  ast.Node      // body of the function under analysis (for resolving locals)
 	// allocation found by the length-domain walk per decoder: the make statement and the variable that holds the decoded length in its size
-	allocs map[string]allocSite
+	allocs  map[string]allocSite
+	callers map[*types.Func][]*types.Func // direct callers per function of the package (absorbed)
+	plain   map[*types.Func]bool          // functions the inliner expands (no defer, not variadic)
 }
 
 type allocSite struct {
 	node   ast.Node      // the statement that allocates
 	call   *ast.CallExpr // the make call
 	size   ast.Expr      // its length (or capacity) argument, which depends on the decoded length
-	holder *ast.Ident    // a variable that holds the decoded length at that point
+	holder ast.Expr      // a variable (or struct field) that holds the decoded length at that point
 	buf    *ast.Ident    // the variable the buffer is assigned to
 }
 
@@ -87,9 +89,7 @@ func Run(c *core.Ctx) {
 	r.r7()
 	r.extra()
 	// instance counts confirmed on the pinned tree: fewer is UNDECIDED, never a vacuous pass
-	for rule, n := range map[string]int{"R1.account": 5, "R1.init": 2, "R1.report": 1, "R2.depth": 4, "R2.tags": 15, "R3.length": 6, "R4.term": 13, "R5.nil": 8, "R6.grammar": 10, "R7.bias": 5} {
-		c.Expect(rule, n)
-	}
+	flow.ExpectAll(c, map[string]int{"R1.account": 5, "R1.init": 2, "R1.report": 1, "R2.depth": 4, "R2.tags": 15, "R3.length": 6, "R4.term": 13, "R5.nil": 8, "R6.grammar": 10, "R7.bias": 5})
 }
 
 // ---- small helpers
@@ -147,6 +147,9 @@ func (r *rs) decls() []*ast.FuncDecl {
 		for _, d := range f.Decls {
 			if fd, ok := d.(*ast.FuncDecl); ok && fd.Body != nil {
 				obj, _ := r.info.Defs[fd.Name].(*types.Func)
+				if r.absorbed(obj) {
+					continue // a helper whose calls are expanded in the views of its callers: judged there
+				}
 				out = append(out, r.inl.Fn(&core.Fn{Obj: obj, Decl: fd, Pkg: r.pk}).Decl)
 			}
 		}
@@ -154,8 +157,69 @@ func (r *rs) decls() []*ast.FuncDecl {
 	return out
 }
 
+// absorbed: f is a helper (neither exported nor one of the rule set's anchors)
+// that some other function of the package calls directly: the inliner expands
+// it there, and looking at it once more on its own would judge a fragment.
+func (r *rs) absorbed(f *types.Func) bool {
+	return r.nesting(f, 0) > 0
+}
+
+// nesting: 0 for a function that is looked at on its own, otherwise how many
+// expansions deep f ends up below such a function (the inliner stops at 2).
+func (r *rs) nesting(f *types.Func, guard int) int {
+	if f == nil || f.Exported() || anchors[f.Name()] || f.Name() == "init" || guard > 4 {
+		return 0
+	}
+	if r.callers == nil {
+		r.callers = map[*types.Func][]*types.Func{}
+		r.plain = map[*types.Func]bool{}
+		for _, file := range r.pk.Syntax {
+			if core.IsTestFile(r.c.Fset, file) {
+				continue
+			}
+			for _, d := range file.Decls {
+				fd, ok := d.(*ast.FuncDecl)
+				if !ok || fd.Body == nil {
+					continue
+				}
+				self, _ := r.info.Defs[fd.Name].(*types.Func)
+				plain := true
+				core.InspectAll(fd.Body, func(m ast.Node) bool {
+					switch x := m.(type) {
+					case *ast.DeferStmt:
+						plain = false
+					case *ast.CallExpr:
+						if g := core.CalleeFunc(r.info, x); g != nil && g != self && g.Pkg() == r.pk.Types {
+							r.callers[g] = append(r.callers[g], self)
+						}
+					}
+					return true
+				})
+				if sig, ok := self.Type().(*types.Signature); ok && sig.Variadic() {
+					plain = false
+				}
+				r.plain[self] = plain
+			}
+		}
+	}
+	// a helper the inliner does not expand (defer, variadic), or one nobody calls, stands on its own
+	if !r.plain[f] || len(r.callers[f]) == 0 {
+		return 0
+	}
+	deepest := 0
+	for _, c := range r.callers[f] {
+		if d := r.nesting(c, guard+1); d > deepest {
+			deepest = d
+		}
+	}
+	if deepest+1 > 2 {
+		return 0
+	}
+	return deepest + 1
+}
+
 func (r *rs) graph(fd *ast.FuncDecl) *cfgq.Graph {
-	return cfgq.Of(r.c.Program, &core.Fn{Decl: fd, Pkg: r.pk})
+	return flow.GraphOf(r.c.Program, &core.Fn{Decl: fd, Pkg: r.pk})
 }
 
 // unconv strips type conversions: int64(len(b)) -> len(b).
@@ -376,7 +440,7 @@ func (a *acct) events(n ast.Node) []event {
 				default:
 					a.bad = append(a.bad, "unrecognised consumption from Decoder.r: "+r.c.Src(s))
 				}
-			case core.IsFunc(core.CalleeFunc(info, s), "io", "", "ReadFull") && len(s.Args) == 2 && isR(s.Args[0]):
+			case r.isReadFull(s) && isR(s.Args[0]):
 				a.base(s.Args[0])
 				a.handled[ast.Unparen(s.Args[0])] = true
 				if o := flow.Obj(info, s.Args[1]); o != nil {
@@ -394,6 +458,22 @@ func (a *acct) events(n ast.Node) []event {
 		return true
 	})
 	return evs
+}
+
+// isReadFull: a call that fills its whole buffer or fails - io.ReadFull(r, b),
+// or io.ReadAtLeast(r, b, len(b)), which is how the library defines ReadFull.
+func (r *rs) isReadFull(call *ast.CallExpr) bool {
+	info := r.info
+	f := core.CalleeFunc(info, call)
+	if core.IsFunc(f, "io", "", "ReadFull") && len(call.Args) == 2 {
+		return true
+	}
+	if core.IsFunc(f, "io", "", "ReadAtLeast") && len(call.Args) == 3 {
+		if ln, ok := ast.Unparen(call.Args[2]).(*ast.CallExpr); ok && flow.IsBuiltin(info, ln, "len") && len(ln.Args) == 1 {
+			return flow.Obj(info, call.Args[1]) != nil && pat.Same(info, ln.Args[0], call.Args[1])
+		}
+	}
+	return false
 }
 
 func canon(bal map[string]int) string {
